@@ -817,7 +817,7 @@ func gen(state bool) func(rng *rand.Rand, tier string) []string {
 		}
 		retry := rng.Intn(5) < 2
 		pats := []string{"s", "ds", "dds", "ds", "ddds"} // finite: a cancelled root context would otherwise be retried for ever
-		ds := []int{2, 3, 8}
+		ds := []int{2, 8, 12}
 		out := []string{fmt.Sprintf("cfg %s %d %d %d %s %d", kind, cmp, b2i(retry), rng.Intn(3), pats[rng.Intn(len(pats))], ds[rng.Intn(len(ds))])}
 		multi := rng.Intn(3) == 0
 		risky := rng.Intn(3) == 0 // (D16 and D14 are fixed) may clear the routine inside an exit latency (D16) or move a failed routine to a new context (D14)
@@ -941,6 +941,12 @@ func gen(state bool) func(rng *rand.Rand, tier string) []string {
 					out = append(out, "setroutine 0")
 				}
 				out = append(out, "exit old ctx", "exit old ctx", "settle")
+			case r < 56 && retry:
+				// a failed routine waiting for its retry is replaced inside the backoff window
+				out = append(out, fmt.Sprintf("exit old err %d", 1+rng.Intn(3)), "pause", setR(true), "advance", "probe")
+				if rng.Intn(2) == 0 {
+					out = append(out, "clearctx", "settle", "probe", "quiesce")
+				}
 			case r < 56 && !retry:
 				// restart rules: let the instance fail or succeed, let that be recorded, then move the context
 				out = append(out, exit(), "settle", fmt.Sprintf("setctx %d %d", 1+rng.Intn(2), rng.Intn(2)), "settle")
@@ -1015,6 +1021,9 @@ func init() {
 			{"cfg plain 0 1 1 ds 20", "setctx 1 0", "setroutine 1", "settle", "exit old err 1", "settle", "gate hold", "waitgate 0", "restart", "settle", "open 0", "settle", "probe", "quiesce", "exit old ok", "quiesce"},
 			// a healthy instance started after a failure is moved to a new context by SetContext(restart=false)
 			{"cfg plain 0 0 1", "setctx 1 0", "setroutine 1", "settle", "exit old err 1", "settle", "restart", "settle", "probe", "setctx 2 0", "settle", "probe", "exit old ctx", "settle", "quiesce", "exit old ok", "quiesce"},
+			// a failed routine waiting for its retry is replaced: its timer must not bring it back (beside the new one, or after ClearContext)
+			{"cfg plain 0 1 1 ds 20", "setctx 1 0", "setroutine 1", "settle", "exit old err 1", "settle", "setroutine 2", "advance", "probe", "quiesce", "clearctx", "settle", "probe", "quiesce", "exit old ctx", "exit old ctx", "quiesce"},
+			{"cfg plain 0 1 0 dds 20", "setctx 1 0", "setroutine 1", "settle", "exit old err 2", "settle", "setroutine 0", "advance", "probe", "quiesce", "setroutine 2", "settle", "exit old err 1", "settle", "setroutine 1", "restart", "advance", "probe", "quiesce", "exit old ctx", "exit old ok", "quiesce"},
 			// a fresh execute goroutine held at its start, superseded, context cancelled by the environment
 			{"cfg plain 0 0 1", "setctx 1 0", "gate exec", "setroutine 1", "waitgate 0", "restart", "open 0", "settle", "cancelroot 1", "restart", "waitexited 1", "exit old ctx", "quiesce", "setctx 2 0", "settle", "exit old ok", "quiesce"},
 		},
@@ -1028,6 +1037,9 @@ func init() {
 			{"cfg state 1 0 0", "setctx 1 0", "setsr 1", "setstate 1", "settle", "setstate 0", "setstate 2", "settle", "probe", "quiesce", "exit old ctx", "exit old ok", "quiesce"},
 			// D4: a state change must wake WaitExited (the inner container's broadcast, under the inner lock)
 			{"cfg state 1 0 0", "setsr 1", "setctx 1 0", "setstate 1", "settle", "waitexited 1", "waitexited 0", "settle", "setstate 0", "settle", "quiesce", "exit old ctx", "quiesce", "cancelw 1", "quiesce"},
+			// a failed state routine waiting for its retry is replaced by a new state / a new function
+			{"cfg state 1 1 0 ds 20", "setsr 1", "setctx 1 0", "setstate 1", "settle", "exit old err 2", "settle", "setstate 2", "advance", "probe", "quiesce", "clearctx", "settle", "probe", "quiesce", "exit old ctx", "exit old ctx", "quiesce"},
+			{"cfg state 0 1 1 dds 20", "setctx 1 0", "setstate 1", "setsr 1", "settle", "exit old err 1", "settle", "setsr 2", "advance", "probe", "quiesce", "exit old err 3", "settle", "swap 3", "advance", "probe", "quiesce", "exit old ctx", "exit old ok", "quiesce"},
 			// concurrent SetState / SetContext / exits (D4)
 			{"cfg state 0 0 1", "setsr 1", "setctx 1 0", "mode auto", "async setstate 1", "async setctx 2 0", "async setstate 2", "async setctx 1 1", "async setstate 3", "join", "quiesce", "getstate", "exit old ok", "quiesce"},
 		},
